@@ -14,9 +14,15 @@ use winter_air::{
 };
 use winter_crypto::hashers::{Blake3_192, Blake3_256, Rp62_248};
 use winter_math::fields::{f128, f62, f64};
+use winter_utils::{Deserializable, Serializable};
 use winter_verifier::AcceptableOptions;
 
-use wfcommon::util::{catch, read_ndjson, Out};
+use wfcommon::{
+    toy::{F257, F40961, F97},
+    util::{bytes_of, catch, read_ndjson, Out},
+};
+
+use crate::padfield::Pad;
 
 type H96 = Blake3_192<f64::BaseElement>;
 type H128 = Blake3_256<f64::BaseElement>;
@@ -42,12 +48,50 @@ fn bm(x: usize) -> BatchingMethod {
     }
 }
 
-fn context(fb: usize, ti: TraceInfo, options: ProofOptions, nc: usize) -> Context {
-    match fb {
-        62 => Context::new::<f62::BaseElement>(ti, options, nc),
-        64 => Context::new::<f64::BaseElement>(ti, options, nc),
-        128 => Context::new::<f128::BaseElement>(ti, options, nc),
-        _ => panic!("harness: unsupported field bits {fb}"),
+/// The base field of a context as the specification names it (Security.tla, `Flds`):
+///  * src "new":  `Context::new::<F>` over a StarkField type F — the built-in fields, the toy fields of
+///    wfcommon (minimal-length modulus bytes) and `Pad<P, N>` (small modulus kept in N bytes);
+///  * src "wire": `Context::read_from` on a serialized context whose modulus field holds `mod_bytes`.
+/// The caller checks that the context announces exactly `mod_bytes`.
+#[derive(Clone)]
+struct FieldSpec {
+    fld: String,
+    src: String,
+    mod_bytes: Vec<u8>,
+}
+
+impl FieldSpec {
+    fn of(v: &Value) -> Self {
+        FieldSpec {
+            fld: v["fld"].as_str().unwrap_or("").to_string(),
+            src: v["src"].as_str().unwrap_or("").to_string(),
+            mod_bytes: bytes_of(&v["mod"]),
+        }
+    }
+}
+
+fn context(f: &FieldSpec, ti: TraceInfo, options: ProofOptions, nc: usize) -> Context {
+    if f.src == "wire" {
+        // the byte layout of Context::write_into
+        let mut bytes = Vec::new();
+        ti.write_into(&mut bytes);
+        bytes.push(f.mod_bytes.len() as u8);
+        bytes.extend_from_slice(&f.mod_bytes);
+        options.write_into(&mut bytes);
+        nc.write_into(&mut bytes);
+        return Context::read_from_bytes(&bytes).unwrap_or_else(|e| panic!("harness: context bytes rejected: {e}"));
+    }
+    match f.fld.as_str() {
+        "f62" => Context::new::<f62::BaseElement>(ti, options, nc),
+        "f64" => Context::new::<f64::BaseElement>(ti, options, nc),
+        "f128" => Context::new::<f128::BaseElement>(ti, options, nc),
+        "toy97" => Context::new::<F97>(ti, options, nc),
+        "toy257" => Context::new::<F257>(ti, options, nc),
+        "toy40961" => Context::new::<F40961>(ti, options, nc),
+        "pad97x8" => Context::new::<Pad<97, 8>>(ti, options, nc),
+        "pad257x4" => Context::new::<Pad<257, 4>>(ti, options, nc),
+        "pad40961x8" => Context::new::<Pad<40961, 8>>(ti, options, nc),
+        other => panic!("harness: unknown field encoding {other}"),
     }
 }
 
@@ -100,12 +144,16 @@ pub fn main_lines(args: &[String]) -> i32 {
     let (mut bad, mut n) = (0usize, 0usize);
     for (i, ln) in lines.iter().enumerate() {
         let (b, e, g, fb, cr) = (us(&ln["b"]), us(&ln["e"]), us(&ln["g"]), us(&ln["fb"]), us(&ln["cr"]));
+        let fs = FieldSpec::of(ln);
         let exp: Vec<u64> = ln["bits"].as_array().map(|a| a.iter().map(|x| x.as_u64().unwrap_or(0)).collect()).unwrap_or_default();
         let got = catch(|| {
             let mut v = vec![];
             for q in 1..=exp.len() {
                 let options = ProofOptions::new(q, b, g as u32, ext(e), 4, 31, BatchingMethod::Linear, BatchingMethod::Linear);
-                proof.context = context(fb, TraceInfo::new(3, 16), options, 5);
+                proof.context = context(&fs, TraceInfo::new(3, 16), options, 5);
+                if proof.context.field_modulus_bytes() != fs.mod_bytes.as_slice() {
+                    panic!("harness: context announces other modulus bytes than requested");
+                }
                 v.push(conj_bits(&proof, cr) as u64);
             }
             v
@@ -116,12 +164,12 @@ pub fn main_lines(args: &[String]) -> i32 {
             Ok(v) => {
                 bad += 1;
                 let q = (0..exp.len()).find(|&k| v[k] != exp[k]).unwrap_or(0);
-                out.emit(&json!({"i": i, "detail": {"call": "conjectured_security.bits", "b": b, "e": e, "g": g, "fb": fb, "cr": cr,
+                out.emit(&json!({"i": i, "detail": {"call": "conjectured_security.bits", "b": b, "e": e, "g": g, "fld": fs.fld, "fb": fb, "cr": cr,
                     "q": q + 1, "expected": exp[q], "got": v[q], "positions": (0..exp.len()).filter(|&k| v[k] != exp[k]).count()}}));
             },
             Err(p) => {
                 bad += 1;
-                out.emit(&json!({"i": i, "detail": {"call": "conjectured_security.bits", "b": b, "e": e, "g": g, "fb": fb, "cr": cr,
+                out.emit(&json!({"i": i, "detail": {"call": "conjectured_security.bits", "b": b, "e": e, "g": g, "fld": fs.fld, "fb": fb, "cr": cr,
                     "q": 0, "expected": "values", "got": "panic", "panic": p}}));
             },
         }
@@ -135,7 +183,10 @@ pub fn main_lines(args: &[String]) -> i32 {
 const DEC_QS: [usize; 14] = [1, 2, 19, 20, 27, 40, 41, 79, 80, 100, 119, 150, 254, 255];
 
 fn record_cell(cell: &Value, gs: &[usize], nq: usize) -> Value {
-    let (b, fb, cr) = (us(&cell["b"]), us(&cell["fb"]), us(&cell["cr"]));
+    let (b, cr) = (us(&cell["b"]), us(&cell["cr"]));
+    let fs = FieldSpec::of(cell);
+    let fbits = us(&cell["fbits"]) as u32;
+    let mut announced: Vec<u8> = vec![];
     let (ll, nc, w) = (us(&cell["ll"]), us(&cell["nc"]), us(&cell["w"]));
     let (fold, rem, bc, bd) = (us(&cell["fold"]), us(&cell["rem"]), us(&cell["bc"]), us(&cell["bd"]));
     let mut proof = Proof::new_dummy();
@@ -150,7 +201,10 @@ fn record_cell(cell: &Value, gs: &[usize], nq: usize) -> Value {
             let (mut cg, mut lg, mut ug) = (vec![], vec![], vec![]);
             for q in 1..=nq {
                 let options = ProofOptions::new(q, b, g as u32, ext(e), fold, rem, bm(bc), bm(bd));
-                proof.context = context(fb, TraceInfo::new(w, 1usize << ll), options, nc);
+                proof.context = context(&fs, TraceInfo::new(w, 1usize << ll), options, nc);
+                if announced.is_empty() {
+                    announced = proof.context.field_modulus_bytes().to_vec();
+                }
                 let c = conj_bits(&proof, cr);
                 let (l, u) = proven(&proof, cr);
                 cg.push(c);
@@ -158,7 +212,11 @@ fn record_cell(cell: &Value, gs: &[usize], nq: usize) -> Value {
                 ug.push(u);
                 if DEC_QS.contains(&q) && dec_gis.contains(&gi) {
                     for (k, v) in [("conj", c), ("proven", l.max(u))] {
-                        let mut ms = vec![0, v.saturating_sub(1), v, v + 1, cr as u32, cr as u32 + 1, (1u32 << 31) - 1];
+                        // thresholds around the estimate, the collision resistance and the size of the
+                        // extension field (fbits comes from the specification: bit length of the modulus value)
+                        let fe = fbits * e as u32;
+                        let mut ms = vec![0, v.saturating_sub(1), v, v + 1, cr as u32, cr as u32 + 1, (1u32 << 31) - 1,
+                            fe.saturating_sub(1), fe, fe + 1];
                         ms.sort();
                         ms.dedup();
                         for m in ms {
@@ -180,7 +238,7 @@ fn record_cell(cell: &Value, gs: &[usize], nq: usize) -> Value {
         ldr.push(le);
         udr.push(ue);
     }
-    json!({"cell": cell, "gs": gs, "nq": nq, "conj": conj, "ldr": ldr, "udr": udr, "dec": dec})
+    json!({"cell": cell, "gs": gs, "nq": nq, "mod": announced, "conj": conj, "ldr": ldr, "udr": udr, "dec": dec})
 }
 
 pub fn main_record(args: &[String]) -> i32 {
@@ -200,7 +258,7 @@ pub fn main_record(args: &[String]) -> i32 {
                 while i < cells.len() {
                     let ev = match catch(|| record_cell(&cells[i], gs, nq)) {
                         Ok(v) => v,
-                        Err(p) => json!({"cell": cells[i], "gs": gs, "nq": nq, "conj": [], "ldr": [], "udr": [], "dec": [], "panic": p}),
+                        Err(p) => json!({"cell": cells[i], "gs": gs, "nq": nq, "mod": [], "conj": [], "ldr": [], "udr": [], "dec": [], "panic": p}),
                     };
                     r.push((i, ev));
                     i += threads;
@@ -236,7 +294,7 @@ pub fn main_optsets(args: &[String]) -> i32 {
     for (i, ln) in lines.iter().enumerate() {
         let exp = ln["accept"].as_bool().unwrap_or(false);
         let got = catch(|| {
-            proof.context = context(64, TraceInfo::new(2, 8), options_of(&ln["p"]), 3);
+            proof.context = Context::new::<f64::BaseElement>(TraceInfo::new(2, 8), options_of(&ln["p"]), 3);
             let set: Vec<ProofOptions> = ln["S"].as_array().map(|a| a.iter().map(options_of).collect()).unwrap_or_default();
             AcceptableOptions::OptionSet(set).validate::<H128>(&proof).is_ok()
         });
